@@ -50,6 +50,10 @@ CHECKS = {
          "all-valid batches of all sizes must show Equation(1) and no Fallback event in every chunk (hook trace validated through Batch.tla)"),
  "C09": ("4 C09", "R1: SmallOrder(P) <=> k=0 in Z_L x Z_8 drives the pipeline; R2/R3: the 14 torsion encodings (positive) and [k]B+T_t for all t, non-canonical y+p, small k (negative) "
          "as key and as R through single/batch verification and directly through isSmallOrderVartime, validated by TLC"),
+ "C20": ("4 C20", "R1: non-interference of the leakage models of the selector / recoding loop / comparison as a 2-safety property, decided by TLC through self-composition over all pairs of secrets "
+         "(early-exit comparison and secret-indexed lookup refuted as controls); R3: machine-level instruction + load/store address traces (valgrind lackey, cut between two markers, restricted to the code of "
+         "the library and of the primitives it applies to data) of every secret-handling operation for several secrets per public shape and build configuration; TraceCT.tla requires the observation to be a "
+         "function of (configuration, operation, public shape)"),
 }
 
 def main():
@@ -61,7 +65,7 @@ def main():
             "thorough_cmd": "bin/check %s thorough" % pid,
             "evidence_file": "/verif/evidence/%s.json" % pid,
             "replay_cmd_template": "bin/check %s --replay {path}" % pid,
-            "engine": "tlc-trace-validation",
+            "engine": "tlc-trace-validation" if pid != "C20" else "tlc-trace-validation+lackey",
             "level_claimed": {"category": "model_checking", "text": text, "design_ref": "DESIGN.md section " + ref},
             "level_note": TRUST,
             "technique": "TLA+ specification model-checked with TLC (scaled constants) + TLC-generated case matrix replayed on the real code + TLC trace validation in exact arithmetic",
